@@ -4,15 +4,27 @@
 
 use crate::ast::{Rel, Term};
 
+fn is_atom(t: &Term) -> bool {
+    matches!(t, Term::Int(_) | Term::Bool(_) | Term::Char(_) | Term::Str(_))
+}
+
 fn items(t: &Term) -> Option<Vec<Term>> {
     t.as_proper_list().map(|v| v.into_iter().cloned().collect())
 }
 
 pub fn holds(rel: Rel, a: &[Term]) -> Option<bool> {
     Some(match rel {
-        Rel::Member | Rel::Member1 => items(&a[1])?.contains(&a[0]),
+        Rel::Member | Rel::Member1 => {
+            if is_atom(&a[1]) {
+                return Some(false); // an atom has no members
+            }
+            items(&a[1])?.contains(&a[0])
+        }
         Rel::Append => {
             // ls is l followed by s (s itself may be any term: the tail)
+            if is_atom(&a[0]) {
+                return Some(false); // "l followed by s" needs a list l
+            }
             let l = items(&a[0])?;
             a[2] == Term::improper(l, a[1].clone())
         }
